@@ -121,7 +121,7 @@ static void plan_gen(rng_t *r, int thorough, char ty, int stream, plan_t *p) {
            the factorization must answer info > n; larger values sometimes succeed and exercise the workspace-owned L,U */
         p->lwork_small = rng_chance(r, 0.7) ? rng_int(r, 8, 40 * p->n) : rng_int(r, 400 * p->n, 4000 * p->n + 20000);
         p->fault_k = rng_int(r, 1, heavy ? 40 : 24);
-        if (p->style == ST_GSISX) p->oos_mode = OOS_FAULT;
+        if (p->style == ST_GSISX && p->n % 3 == 0) p->oos_mode = OOS_FAULT;   /* (the ILU driver gets both kinds as well: work area too small / a refused allocation) */
     }
     p->nsteps = rng_int(r, 0, 5); for (int s = 0; s < 8; s++) p->steps[s] = rng_int(r, 0, 119);
     if (risky) { static const int rules[] = { DROP_BASIC | DROP_PROWS, DROP_BASIC | DROP_COLUMN, DROP_BASIC | DROP_AREA, DROP_BASIC | DROP_DYNAMIC, DROP_BASIC | DROP_INTERP | DROP_AREA, DROP_BASIC };
